@@ -88,7 +88,9 @@ MNext ==
          j2 == FoldJ(jr, e.ch)
      IN
      /\ disk' = d2 /\ jr' = j2
-     /\ sawFault' = (sawFault \/ (e.e = "op" /\ e.inj) \/ (e.e = "aend" /\ ~e.ok))
+     \* (an append that fails WITHOUT an injected I/O error - cls "none" - is the recorder's own doing: what it leaves
+     \* behind is judged like the files of any other run)
+     /\ sawFault' = (sawFault \/ (e.e = "op" /\ e.inj) \/ (e.e = "aend" /\ ~e.ok /\ e.cls # "none"))
      /\ bef' = IF e.e = "abegin" THEN d2[e.fi] ELSE bef
      /\ curf' = IF e.e = "abegin" THEN e.fi ELSE curf
      /\ lastFault' = IF e.e = "aend" /\ ~e.ok
